@@ -127,6 +127,10 @@ pub fn replay(input: &str, output: &str) {
         if k % 5 == 0 { p.c1 = 1.0; p.c4 = 0.0; }
         if k % 4 == 0 { p.dof = 5; p.sign_corrections[5] = 0; }
         if k % 7 == 0 { p.sign_corrections[5] = 0; }
+        if k % 6 == 1 {
+            // offsets of the order of the printed precision (1e-4 degree = 1.7e-6 rad) and a little above
+            for j in 0..6 { if r.gen_bool(0.5) { p.offsets[j] = r.gen_range(1.0e-6..9.0e-5) * if r.gen_bool(0.5) { 1.0 } else { -1.0 }; } }
+        }
         sets.push((format!("random-{}", k), p));
     }
     for (n, (name, p)) in sets.iter().enumerate() {
